@@ -388,7 +388,11 @@ func c11Generate(seed uint64, tier string) Plan {
 		case 4:
 			prog = append(prog, Step{Kind: "writeheader", Str: map[string]string{"code": []string{"200", "302", "404", "500"}[r.Intn(4)]}})
 		case 5:
-			prog = append(prog, Step{Kind: "write", Str: map[string]string{"data": fmt.Sprintf("chunk%d;", i)}})
+			data := fmt.Sprintf("chunk%d;", i)
+			if r.Chance(1, 4) {
+				data = "" // a zero-length write also commits the headers
+			}
+			prog = append(prog, Step{Kind: "write", Str: map[string]string{"data": data}})
 		case 6:
 			prog = append(prog, Step{Kind: "read", Str: map[string]string{"store": store, "key": key}})
 		}
